@@ -422,3 +422,34 @@ def h5(ctx):
                       'maxlen above 256, a key list, custom metadata) makes equal structures differ'
                       % (inst(f), payload[0], kindcall), c.loc)
     ctx.analysed['payload_comparisons'] = n
+
+
+@rule('H6', floor=5, title='every comparison in EqualTo decides: unequal on one outcome, possibly equal on the other')
+def h6(ctx):
+    """== is a conjunction over the flags and the nodes.  For every test in EqualTo exactly one
+    outcome can still reach `return true`: a comparison both of whose outcomes can is ignored
+    (a `return false` dropped or turned into `continue`), one neither of whose outcomes can makes
+    treespecs that pass it unequal."""
+    from .twins import deciding_probes
+    prog = ctx.cxx()
+    from .common import unnegate
+
+    def comparison(e):
+        """a test that compares two values (guards such as `x.empty()` or `a->node_data &&`, and the
+        loop test against the end iterator, are not comparisons of the two treespecs)"""
+        base, _ = unnegate(e)
+        if base is None:
+            return False
+        if base.kind == 'BinaryOperator' and base.op in ('==', '!='):
+            pass
+        elif base.kind == 'CXXOperatorCallExpr' and base.callee_name() in ('operator==', 'operator!='):
+            pass
+        elif base.kind == 'CXXMemberCallExpr' and base.callee_name() in ('equal', 'not_equal', 'is'):
+            pass
+        else:
+            return False
+        t = base.text(5)
+        return 'end()' not in t and 'cend' not in t
+    deciding_probes(ctx, prog.one('PyTreeSpec::EqualTo'), 'EqualTo', 5,
+                    'the comparison does not take part in the answer: treespecs that differ in it '
+                    'compare equal (or equal ones unequal)', comparison)
